@@ -447,6 +447,13 @@ def check_programs(h: Harness):
     grammars.append((gram.Spec([C("A0", True, None), C("Silent", False, 0, [("k", r03)], weight=0), C("Lit", False, 0, [("k", r03)], weight=2),
                                 C("Use", False, 0, [("u", ("union", ("cls", 1), ("cls", 2))), ("e", ("cls", 0)), ("v", ("union", ("cls", 2), ("cls", 1)))], weight=3),
                                 C("Neg", False, 0, [("e", ("cls", 0)), ("w", ("union", ("cls", 1), ("cls", 2)))], weight=1)], 0, [1, 2, 3, 4]), {1}, ("progressive",)))
+    # expansion depthing: a weighted NESTED abstract type whose only production is the deepest class of the grammar (the abstract type
+    # is then deeper than every concrete class), beside a switched-off production; also with the deep class two levels down
+    grammars.append((gram.Spec([C("Stmt", True, None), C("Halt", False, 0, [], weight=0), C("Skip", False, 0, [], weight=1),
+                                C("Assign", True, 0, weight=6), C("SetVar", False, 3, [("value", "int")])], 0, [1, 2, 3, 4], True), {1}, ("progressive",)))
+    grammars.append((gram.Spec([C("Stmt", True, None), C("Halt", False, 0, [("k", r03)], weight=0), C("Skip", False, 0, [], weight=1),
+                                C("Assign", True, 0, weight=9), C("Place", True, 3, weight=2), C("SetVar", False, 4, [("value", r03), ("next", ("cls", 0))])],
+                               0, [1, 2, 3, 4, 5], True), {1}, ("progressive",)))
     rng = h.rng
     for spec, off, kinds in grammars:
         b = gram.build(spec)
